@@ -38,7 +38,7 @@ Section PrintOnRun.
     split; [|reflexivity].
     set (Ls := filter (in_period NM op) L) in *.
     assert (Hsafe : forallb safe_tok toks = true).
-    { destruct S1 as (_ & _ & _ & _ & Htok). apply (PrintDates.tokenize_safe _ _ Htok). }
+    { destruct S1 as (_ & _ & _ & _ & _ & Htok). apply (PrintDates.tokenize_safe _ _ Htok). }
     destruct (read_log_shape NM toks data L H1) as [Hshape Hlay].
     assert (Hr : read_log NM toks (print_output NM c Ls) = Some (map (reread_day NM) Ls)).
     { destruct Ls as [|d0 Ls0] eqn:ELs; [apply read_log_nil|].
